@@ -247,6 +247,9 @@ class Verdict:
         os.makedirs(os.path.join(BUILD, 'replay'), exist_ok=True)
         for k in self.known_hit:
             print('KNOWN-FINDING: property=%s %s' % (self.pid, k['what']))
+        # a broken obligation / correspondence is reported without an input only when no failing input was found
+        if any(not v[3] for v in self.violations):
+            self.violations = [v for v in self.violations if not v[3]]
         for i, (key, desc, replay, no_input) in enumerate(self.violations):
             rp = os.path.join(BUILD, 'replay', '%s_%d.json' % (self.pid, i))
             with open(rp, 'w') as f:
